@@ -139,6 +139,26 @@ Example parse_accepts_1e400 :
   to_js (JNum false [49] [] (Some (false, [52; 48; 48]))) = PNum false 1 400.
 Proof. vm_compute. split; reflexivity. Qed.
 
+(* 6. Histories.  Results of a sequence of serialisations on one runtime (Object.MarshalJSON through the Go API,
+      JSON.stringify from scripts) are all retained by the caller: the result of a step is what that step alone
+      returns, whatever is serialised before or afterwards, and MarshalJSON(o) is JSON.stringify(o) throughout. *)
+Theorem history_result_stable : forall pre s post,
+  nth_error (run_history (pre ++ s :: post)) (length pre) = Some (step_result s).
+Proof. exact Proofs.history_result_stable. Qed.
+
+Theorem history_marshal_is_stringify : forall pre v post t,
+  stringify v RNone VUndef = SText t ->
+  nth_error (run_history (pre ++ HMarshal v :: post)) (length pre) = Some (SText t) /\
+  nth_error (run_history (pre ++ HStringify v :: post)) (length pre) = Some (SText t).
+Proof. exact Proofs.history_marshal_is_stringify. Qed.
+
+Example history_nonvacuous :
+  run_history [HMarshal (VObj [([97], VNull)]); HStringify (VArr [VBool true; VFun]); HMarshal VFun]
+  = [SText [123; 34; 97; 34; 58; 110; 117; 108; 108; 125];
+     SText [91; 116; 114; 117; 101; 44; 110; 117; 108; 108; 93];
+     SText [110; 117; 108; 108]].
+Proof. vm_compute. reflexivity. Qed.
+
 Print Assumptions parse_sound.
 Print Assumptions parse_complete.
 Print Assumptions parse_iff_derives.
@@ -159,3 +179,5 @@ Print Assumptions stringify_parse_roundtrip.
 Print Assumptions gap_of_number_ws.
 Print Assumptions marshal_agrees.
 Print Assumptions symbol_wrapper_is_object.
+Print Assumptions history_result_stable.
+Print Assumptions history_marshal_is_stringify.
